@@ -311,6 +311,58 @@ fn signal_run(args: &[String], input: &[u8], stop_marker: Option<&str>, delay_ms
     SigOutcome { status: st.and_then(|s| s.code()), killed_by: if timed_out { None } else { st.and_then(|s| s.signal()) }, timed_out, stderr, stdout: String::from_utf8_lossy(&stdout).into_owned() }
 }
 
+/// A producer that never stops: `unit` (whole packets) is written to the tool's stdin again and again; `sig` is sent
+/// after `delay_ms`. Returns the time from the signal to the exit, or None if the tool was still running
+/// `limit_s` seconds after the signal (it is killed then).
+fn endless_input_run(args: &[String], unit: &[u8], delay_ms: u64, sig: i32, limit_s: u64) -> Option<f64> {
+    use std::io::Write;
+    use std::process::{Command, Stdio};
+    use std::time::{Duration, Instant};
+    let scratch = Scratch::new("c17end");
+    let mut child = Command::new(fp_harness::cli::cli_bin())
+        .args(args)
+        .current_dir(&scratch.path)
+        .env("RUST_BACKTRACE", "0")
+        .stdin(Stdio::piped())
+        .stdout(Stdio::null())
+        .stderr(Stdio::null())
+        .spawn()
+        .expect("spawn fastpasta");
+    let mut stdin = child.stdin.take().unwrap();
+    let data: Vec<u8> = unit.iter().copied().cycle().take(unit.len() * (1 + (1 << 16) / unit.len().max(1))).collect();
+    let stop = Arc::new(std::sync::atomic::AtomicBool::new(false));
+    let stop2 = stop.clone();
+    let t_in = std::thread::spawn(move || {
+        // whole units only: the stream stays well-framed for as long as it lasts
+        while !stop2.load(std::sync::atomic::Ordering::Relaxed) {
+            if stdin.write_all(&data).is_err() {
+                break;
+            }
+        }
+        drop(stdin);
+    });
+    std::thread::sleep(Duration::from_millis(delay_ms));
+    unsafe {
+        libc::kill(child.id() as i32, sig);
+    }
+    let t0 = Instant::now();
+    let res = loop {
+        match child.try_wait() {
+            Ok(Some(_)) => break Some(t0.elapsed().as_secs_f64()),
+            Ok(None) if t0.elapsed() > Duration::from_secs(limit_s) => {
+                let _ = child.kill();
+                let _ = child.wait();
+                break None;
+            }
+            Ok(None) => std::thread::sleep(Duration::from_millis(10)),
+            Err(_) => break None,
+        }
+    };
+    stop.store(true, std::sync::atomic::Ordering::Relaxed);
+    let _ = t_in.join();
+    res
+}
+
 /// {no earlier stop, error cap reached, fatal framing error} x {SIGINT, SIGTERM, SIGHUP} x {one, two signals} with
 /// the input pipe held open, plus one signal at a menu of delays on a long input. One signal must always lead to
 /// the orderly end (no forced exit, no panic, bounded time); a second one may force the exit.
@@ -381,7 +433,34 @@ fn real_signals(rep: &mut Reporter) -> serde_json::Value {
             rep.violation(Violation { signature: format!("signal:{kind}:{class}"), description: format!("{d} [{} | `{}`]", c.label, c.args.join(" ")), replay: json!({"args": c.args, "signals": c.signals, "label": c.label}) });
         }
     }
-    json!({"cases": cases.len(), "two_signal_cases_with_forced_exit": forced, "signal_arrived_before_the_handler_was_installed": before_handler})
+    // a producer that never stops (a live stream): the stop request must end the run although input keeps coming -
+    // with a filter that selects everything (control: the reader sees the flag after each batch) and with a filter
+    // that selects nothing (the reader is busy skipping packets)
+    let mut endless = 0u64;
+    {
+        let (_, unit) = streams::multi_link(2, 4, 0, false, false);
+        let mut ecases: Vec<(&str, Vec<String>, i32)> = Vec::new();
+        for (sname, sig) in [("SIGTERM", libc::SIGTERM), ("SIGINT", libc::SIGINT)] {
+            let _ = sname;
+            ecases.push(("no filter", s(&["check", "sanity"]), sig));
+            ecases.push(("filter selects a link that is present", s(&["check", "sanity", "--filter-link", "0"]), sig));
+            ecases.push(("filter selects a link that never comes", s(&["check", "sanity", "--filter-link", "9"]), sig));
+            ecases.push(("filtered writing of a link that never comes", s(&["--filter-link", "9", "-o", "out.raw"]), sig));
+        }
+        let res = par_map(&ecases, |_, (_, args, sig)| endless_input_run(args, &unit, 400, *sig, 6));
+        for ((label, args, sig), r) in ecases.iter().zip(res.iter()) {
+            endless += 1;
+            if r.is_none() {
+                let skipping = label.contains("never comes");
+                rep.violation(Violation {
+                    signature: format!("signal:no-end-while-input-keeps-coming:{}", if skipping { "reader-skipping-filtered-out-packets" } else { "reader-delivering-packets" }),
+                    description: format!("still running 6 s after signal {sig} while the producer keeps writing well-framed packets [{label} | `{}`]", args.join(" ")),
+                    replay: json!({"args": args, "signal": sig, "label": label, "kind": "endless-input"}),
+                });
+            }
+        }
+    }
+    json!({"cases": cases.len(), "two_signal_cases_with_forced_exit": forced, "signal_arrived_before_the_handler_was_installed": before_handler, "endless_input_cases": endless})
 }
 
 struct Job {
